@@ -23,6 +23,12 @@ CHECKS = [
            "is replayed on real OptionManager objects, random dictionaries are validated by OptionGridTrace.tla.",
       note="identifier-like strings and integers as option values; registry names distinct",
       technique=TLA),
+ dict(property_id="C17", category="model_checking", design_ref="3.14",
+      text="ARModel.tla models the lag-buffer machines of both kernels and TLC checks them against the AR recursion written over the whole history, "
+           "both inverse laws and the NaN rules on every prefix; every model state is replayed through armodel_sim/armodel_residual; random calls "
+           "(orders 0..12, long single-lag series, NaN parameters) are validated in exact integer arithmetic by ARModelTrace.tla.",
+      note="dyadic lattice (all intermediate values exact in float64); 1-D series only",
+      technique=TLA),
 ]
 
 _PENDING = "check not built yet in this round; see DESIGN.md section 3 for the planned specification"
